@@ -8,13 +8,14 @@ theorem allow_false_state (c : Cfg) (s s' : St) (now : Nat) (h : allow c s now =
   · dsimp only at h
     split at h
     · simp at h; exact h.symm
-    · simp at h
+    · split at h <;> simp at h
 
-/-- an allowed call consumes at least one interval of credit and leaves less than `B+1` -/
+/-- an allowed call consumes at least one interval of credit and leaves less than `B+1` (at most `B`
+intervals of credit when a full bucket keeps no remainder) -/
 theorem allow_true_avail (c : Cfg) (hI : 0 < c.I) (s : St) (now : Nat) (s' : St)
     (h : allow c s now = (true, s')) :
     avail c s' now + c.I ≤ avail c s now ∧ s.prev ≤ now ∧ s'.prev ≤ now ∧ s'.cap ≤ c.B ∧
-    avail c s' now < (c.B + 1) * c.I := by
+    avail c s' now < (c.B + 1) * c.I ∧ (c.f6 = true → avail c s' now ≤ c.B * c.I) := by
   unfold allow at h
   split at h
   · simp at h
@@ -23,34 +24,55 @@ theorem allow_true_avail (c : Cfg) (hI : 0 < c.I) (s : St) (now : Nat) (s' : St)
     split at h
     · simp at h
     · rename_i h2
-      simp only [Prod.mk.injEq, true_and] at h
-      subst h
-      simp only [avail]
       have hdm := Nat.div_add_mod (now - s.prev) c.I
       have hlt := Nat.mod_lt (now - s.prev) hI
       have hle : (now - s.prev) % c.I ≤ now - s.prev := Nat.mod_le _ _
-      have h6 : now - (now - (now - s.prev) % c.I) = (now - s.prev) % c.I := by omega
-      refine ⟨?_, by omega, by omega, Nat.min_le_left _ _, ?_⟩
-      · have hm : min c.B (s.cap + (now - s.prev) / c.I - 1) ≤ s.cap + (now - s.prev) / c.I - 1 := Nat.min_le_right _ _
-        have hpos : 1 ≤ s.cap + (now - s.prev) / c.I := by
-          rcases Nat.eq_zero_or_pos s.cap with h0 | h0
-          · have : ¬ (now - s.prev < c.I) := fun hh => h2 ⟨h0, hh⟩
-            have : 1 ≤ (now - s.prev) / c.I := (Nat.one_le_div_iff hI).2 (by omega)
-            omega
-          · exact Nat.le_trans h0 (Nat.le_add_right _ _)
+      have hpos : 1 ≤ s.cap + (now - s.prev) / c.I := by
+        rcases Nat.eq_zero_or_pos s.cap with h0 | h0
+        · have : ¬ (now - s.prev < c.I) := fun hh => h2 ⟨h0, hh⟩
+          have : 1 ≤ (now - s.prev) / c.I := (Nat.one_le_div_iff hI).2 (by omega)
+          omega
+        · exact Nat.le_trans h0 (Nat.le_add_right _ _)
+      have h4 : (s.cap + (now - s.prev) / c.I - 1) * c.I + c.I = (s.cap + (now - s.prev) / c.I) * c.I := by
+        have : s.cap + (now - s.prev) / c.I - 1 + 1 = s.cap + (now - s.prev) / c.I := by omega
+        rw [← this, Nat.add_mul, Nat.one_mul]; simp
+      have h5 : (s.cap + (now - s.prev) / c.I) * c.I = s.cap * c.I + c.I * ((now - s.prev) / c.I) := by
+        rw [Nat.add_mul, Nat.mul_comm ((now - s.prev) / c.I)]
+      split at h
+      · -- the bucket is full: `cap = B`, `prev = now`
+        rename_i hsat
+        simp only [Prod.mk.injEq, true_and] at h
+        subst h
+        simp only [avail, Nat.sub_self, Nat.add_zero]
+        have h3 : c.B * c.I ≤ (s.cap + (now - s.prev) / c.I - 1) * c.I := Nat.mul_le_mul_right _ hsat.2
+        have hB : (c.B + 1) * c.I = c.B * c.I + c.I := by rw [Nat.add_mul, Nat.one_mul]
+        refine ⟨by omega, by omega, Nat.le_refl _, Nat.le_refl _, by omega, fun _ => Nat.le_refl _⟩
+      · rename_i hns
+        simp only [Prod.mk.injEq, true_and] at h
+        subst h
+        simp only [avail]
+        have h6 : now - (now - (now - s.prev) % c.I) = (now - s.prev) % c.I := by omega
+        have hm : min c.B (s.cap + (now - s.prev) / c.I - 1) ≤ s.cap + (now - s.prev) / c.I - 1 := Nat.min_le_right _ _
+        have hmB : min c.B (s.cap + (now - s.prev) / c.I - 1) ≤ c.B := Nat.min_le_left _ _
         have h3 : min c.B (s.cap + (now - s.prev) / c.I - 1) * c.I ≤ (s.cap + (now - s.prev) / c.I - 1) * c.I :=
           Nat.mul_le_mul_right _ hm
-        have h4 : (s.cap + (now - s.prev) / c.I - 1) * c.I + c.I = (s.cap + (now - s.prev) / c.I) * c.I := by
-          have : s.cap + (now - s.prev) / c.I - 1 + 1 = s.cap + (now - s.prev) / c.I := by omega
-          rw [← this, Nat.add_mul, Nat.one_mul]; simp
-        have h5 : (s.cap + (now - s.prev) / c.I) * c.I = s.cap * c.I + c.I * ((now - s.prev) / c.I) := by
-          rw [Nat.add_mul, Nat.mul_comm ((now - s.prev) / c.I)]
-        rw [h6]
-        omega
-      · have hm : min c.B (s.cap + (now - s.prev) / c.I - 1) ≤ c.B := Nat.min_le_left _ _
-        have h3 := Nat.mul_le_mul_right c.I hm
-        rw [h6, Nat.add_mul, Nat.one_mul]
-        omega
+        have h3B := Nat.mul_le_mul_right c.I hmB
+        have hB : (c.B + 1) * c.I = c.B * c.I + c.I := by rw [Nat.add_mul, Nat.one_mul]
+        refine ⟨?_, by omega, by omega, hmB, ?_, ?_⟩
+        · rw [h6]; omega
+        · rw [h6]; omega
+        · intro hf
+          -- not saturated although the repair is on: the new capacity is below `B`
+          have hlt' : s.cap + (now - s.prev) / c.I - 1 < c.B := by
+            apply Nat.lt_of_not_le
+            intro hcon
+            exact hns ⟨hf, hcon⟩
+          have hmin : min c.B (s.cap + (now - s.prev) / c.I - 1) + 1 ≤ c.B := by
+            have := Nat.min_le_right c.B (s.cap + (now - s.prev) / c.I - 1)
+            omega
+          have := Nat.mul_le_mul_right c.I hmin
+          rw [Nat.add_mul, Nat.one_mul] at this
+          rw [h6]; omega
 
 theorem count_cons_false (bs : List Bool) : count (false :: bs) = count bs := by simp [count]
 theorem count_cons_true (bs : List Bool) : count (true :: bs) = count bs + 1 := by simp [count]
@@ -94,7 +116,7 @@ theorem run_avail (c : Cfg) (hI : 0 < c.I) : ∀ (ts : List Nat) (s : St) (t0 : 
         rw [count_cons_false]
         exact ⟨by omega, h2, by omega⟩
       | true =>
-        have ⟨ha, _, hp', _, _⟩ := allow_true_avail c hI s t s' hal
+        have ⟨ha, _, hp', _, _, _⟩ := allow_true_avail c hI s t s' hal
         have ⟨h1, h2, h3⟩ := ih s' t hp' hrest
         have hm := avail_mono c s t0 t hprev h0t
         rw [count_cons_true, Nat.add_mul, Nat.one_mul]
